@@ -26,6 +26,9 @@ def cases(ctx):
     n = 3000 if q else 60000
     out += dc.random_cases(rng, n, 9, (-5, -3, -1, 0, 2, 4), inners=("sq", "eu"), pens=(0, 0, 1, 3), psi_prob=0.0)
     out += dc.random_cases(rng, n // 2, 9, (-7, -4, -2, -1), S=2, inners=("sq", "eu"), pens=(0, 1), psi_prob=0.0)
+    # max_length_diff: the bound of a distance that is infinite by the length limit is infinite in both engines
+    out += dc.random_cases(rng, n // 4, 7, (-3, -1, 0, 2), inners=("sq", "eu"), pens=(0, 1), mlds=(0 + 1, 2, -1),
+                           psi_prob=0.0)
     out += ndim_cases(rng, n // 3, 6, RECT2, ("sq", "eu"), pens=(0, 1), psi_prob=0.0)
     out += ndim_cases(rng, n // 3, 5, RECT3, ("sq", "eu"), pens=(0, 1), psi_prob=0.0)
     neg3 = [(-3, -4, 0), (0, 0, 0), (-3, -4, -12), (0, 0, -12)]
